@@ -790,8 +790,23 @@ class Evaluator:
         return out
 
     def for_(self, st, live):
+        r = self._for_over_helper_generator(st, live)
+        if r is not None:
+            return r
         it = self.ev(st.iter, live)
-        lid = self.fresh("L")
+        # for x in takewhile(p, xs): ...  is  for x in xs: if not p(x): break; ...
+        preds = []
+        while it[0] == "call" and it[1] == ("ext", "itertools.takewhile") and len(it[2]) == 2 and not it[3]:
+            preds.append(it[2][0])
+            it = it[2][1]
+        # for x in (f(v) for v in xs if c): ...  is  for v in xs: if not c: continue; x = f(v); ...  (also map / filter)
+        value, conds, lid = None, (), None
+        if it[0] == "comp" and it[1] in ("gen", "list") and len(it[3]) == 1 and it[3][0][0] in self.loops \
+                and self.loops[it[3][0][0]].kind == "comp":
+            lid, base, conds = it[3][0]
+            value, it = it[2], base
+        if lid is None:
+            lid = self.fresh("L")
         assigned = self._assigned_names(st.body)
         keep = self._aug_only_lists(st.body, assigned)
         assigned = [n for n in assigned if n not in keep]
@@ -802,8 +817,13 @@ class Evaluator:
             if n in self.env:
                 self.env[n] = ("phi", n, lid)
         self.loop_stack.append(lid)
-        self.assign(st.target, ("elem", lid), live, st)
-        inner = AND(live, ("inloop", lid))
+        elem_v = value if value is not None else ("elem", lid)
+        self.assign(st.target, elem_v, live, st)
+        inner = AND(live, ("inloop", lid), *conds)
+        for p in reversed(preds):
+            c = self._apply_fn(p, [elem_v])
+            self.emit("break", AND(inner, NOT(c)), NONE, st)
+            inner = AND(inner, c)
         self.block(st.body, inner)
         self.loop_stack.pop()
         body_env = self.env
@@ -1099,7 +1119,11 @@ class Evaluator:
 
     def e_YieldFrom(self, n, live):
         self.is_generator = True
-        t = self.ev(n.value, live)
+        self._yield_from = True
+        try:
+            t = self.ev(n.value, live)
+        finally:
+            self._yield_from = False
         if t[0] == "inlined_gen":
             return NONE  # the helper generator's yields were re-emitted in place
         ev = self.emit("yield", live, ("yieldfrom", t), n)
@@ -1139,7 +1163,9 @@ class Evaluator:
             a3 = [NONE, args[0], NONE] if len(args) == 1 else list(args) + [NONE] * (3 - len(args))
             return ("slice", a3[0], a3[1], a3[2])
         t = ("call", f, tuple(args), tuple(named + spreads))
-        inl = self._try_inline(f, t, live, n)
+        yf = getattr(self, "_yield_from", False)
+        self._yield_from = False
+        inl = self._try_inline(f, t, live, n, yield_from=yf)
         if inl is not None:
             return inl
         ev = self.emit("call", live, t, n)
@@ -1302,7 +1328,9 @@ class Evaluator:
             return None
         return module, node, f"{modname}:{fname}", cls, selfterm
 
-    def _try_inline(self, f, call_term, live, n):
+    def _prepare_inline(self, f, call_term):
+        """Resolve, summarise and instantiate a helper call: -> (callee summary, inst(term), id map, qual) or None.
+        Registers the callee's loops / tries / lambdas (renamed) in this evaluator."""
         tgt = self._inline_target(f)
         if tgt is None:
             return None
@@ -1359,8 +1387,7 @@ class Evaluator:
                 if p not in cs.defaults:
                     return None
                 bound[("param", p)] = cs.defaults[p]
-        rets = cs.returns
-        if any(r.loops for r in rets):
+        if any(r.loops for r in cs.returns):
             return None  # a return from inside a loop has no value term
         self._n += 1
         tag = f"i{self._n}"
@@ -1375,8 +1402,28 @@ class Evaluator:
             idmap[lid] = tag + lid
 
         def inst(t):
-            return fold_sub(subst(_rename_ids(t, idmap, tag), bound))
+            return self._fold_records(fold_sub(subst(_rename_ids(t, idmap, tag), bound)))
 
+        return cs, inst, idmap, qual
+
+    def _fold_records(self, t):
+        """After a substitution: Rec(a, b).field -> a / b and Rec(a, b)[i] -> the i-th field, for NamedTuple records."""
+        if not isinstance(t, tuple) or not t:
+            return t
+        t = tuple(self._fold_records(c) if isinstance(c, tuple) else c for c in t)
+        if isinstance(t[0], str) and t[0] in ("attr", "sub") and t[1][0] == "call" and t[1][1][0] == "global" and t[1][1][2] == "class":
+            if t[0] == "attr":
+                v = self._record_field(t[1], t[2])
+                return t if v is None else v
+            ci = self.index.class_by_qual(t[1][1][1])
+            if ci is not None and any(b.split(".")[-1] == "NamedTuple" for b in ci.ext_bases) and not ci.bases \
+                    and t[2][0] == "const" and isinstance(t[2][1], int) and not isinstance(t[2][1], bool):
+                rv = self._record_values(ci, t[1])
+                if rv is not None and -len(rv) <= t[2][1] < len(rv):
+                    return list(rv.values())[t[2][1]]
+        return t
+
+    def _register_inlined(self, cs, inst, idmap):
         top = self.loop_stack[-1] if self.loop_stack else None
         for lid, li in cs.loops.items():
             nl = LoopInfo(idmap[lid], li.kind, inst(li.iter), li.node, idmap[li.parent] if li.parent in idmap else top,
@@ -1386,38 +1433,117 @@ class Evaluator:
                 nl.body_env = {k: inst(v) for k, v in be.items()}  # type: ignore[attr-defined]
             self.loops[nl.id] = nl
         for tid, ti in cs.tries.items():
-            self.tries[idmap[tid]] = TryInfo(idmap[tid], ti.node, [(idmap[h], names) for h, names in ti.handlers])
+            self.tries[idmap[tid]] = TryInfo(idmap[tid], ti.node, [(idmap[h], names) for h, names in ti.handlers],
+                                             {idmap[h]: inst(v) for h, v in ti.falls.items()})
         for lid, ls in cs.lambdas.items():
             self.lambdas[idmap[lid]] = _inst_summary(ls, inst)
         for k, v in cs.nested.items():
             self.nested.setdefault(k, v)
+
+    def _reemit(self, e, live, inst, idmap, qual):
+        ne = Event(e.kind, AND(live, inst(e.live)), inst(e.term), e.node,
+                   tuple(self.loop_stack) + tuple(idmap.get(x, x) for x in e.loops), len(self.events),
+                   tuple(self.try_stack) + tuple(idmap.get(x, x) for x in e.handlers),
+                   tuple(self.handler_stack) + tuple(idmap.get(x, x) for x in e.in_handler))
+        ne.inlined_from = qual  # type: ignore[attr-defined]
+        if hasattr(e, "kw_order"):
+            ne.kw_order = e.kw_order  # type: ignore[attr-defined]
+        self.events.append(ne)
+        if e.kind == "raise" and not e.handlers and not e.loops:
+            self._post.append(NOT(inst(e.live)))
+        return ne
+
+    def _try_inline(self, f, call_term, live, n, yield_from=False):
+        prep = self._prepare_inline(f, call_term) if self._inline_target(f) is not None else None
+        if prep is None:
+            return None
+        cs, inst, idmap, qual = prep
+        if cs.is_generator and not yield_from:
+            return None  # a helper generator is only spliced where it is consumed (yield from / a for loop)
+        self._register_inlined(cs, inst, idmap)
         for e in cs.events:
             if e.kind == "return":
                 continue
-            ne = Event(e.kind, AND(live, inst(e.live)), inst(e.term), e.node,
-                       tuple(self.loop_stack) + tuple(idmap.get(x, x) for x in e.loops), len(self.events),
-                       tuple(self.try_stack) + tuple(idmap.get(x, x) for x in e.handlers),
-                       tuple(self.handler_stack) + tuple(idmap.get(x, x) for x in e.in_handler))
-            ne.inlined_from = qual  # type: ignore[attr-defined]
-            if hasattr(e, "kw_order"):
-                ne.kw_order = e.kw_order  # type: ignore[attr-defined]
-            self.events.append(ne)
-            if e.kind == "raise" and not e.handlers and not e.loops:
-                self._post.append(NOT(inst(e.live)))
+            self._reemit(e, live, inst, idmap, qual)
             if e.kind == "yield":
                 self.is_generator = True
         self.inlined.append(qual)
         if cs.is_generator:
             return ("inlined_gen", qual)
-        vals = [(inst(r.live), inst(r.term)) for r in rets]
+        # value: conditional chain over the return statements; conditions that merely say "no raise happened" hold for
+        # everything after the call anyway (see _post) and are dropped
+        no_raise = set()
+        for e in cs.events:
+            if e.kind == "raise" and not e.handlers and not e.loops:
+                no_raise |= set(conjuncts(NOT(e.live)))
+
+        def strip(lv):
+            return AND(*[c for c in conjuncts(lv) if c not in no_raise])
+
+        vals = [(inst(strip(r.live)), inst(r.term)) for r in cs.raw_returns]
         if cs.fall_live != FALSE:
-            vals.append((inst(cs.fall_live), NONE))
+            vals.append((inst(strip(cs.fall_live)), NONE))
         if not vals:
             return NONE
         v = vals[-1][1]
         for lv, tm in reversed(vals[:-1]):
             v = ITE(lv, tm, v)
         return v
+
+    def _for_over_helper_generator(self, st, live):
+        """`for x in helper(...): body` where helper is a new generator function with one `yield v` inside its loop(s):
+        the helper's loop becomes this function's loop, x is v, the body runs where the yield was.  None = not that form."""
+        if not isinstance(st.iter, ast.Call) or st.orelse:
+            return None
+        saved = len(self.events)
+        f = self.ev(st.iter.func, live)
+        if self._inline_target(f) is None:
+            del self.events[saved:]
+            return None
+        args = [self.ev(a, live) for a in st.iter.args]
+        kws = [(k.arg if k.arg is not None else "**", self.ev(k.value, live)) for k in st.iter.keywords]
+        named = sorted([kv for kv in kws if kv[0] != "**"], key=lambda kv: kv[0])
+        call_term = ("call", f, tuple(args), tuple(named + [kv for kv in kws if kv[0] == "**"]))
+        prep = self._prepare_inline(f, call_term)
+        if prep is None:
+            return None
+        cs, inst, idmap, qual = prep
+        ys = cs.yields
+        if not cs.is_generator or len(ys) != 1 or not ys[0].loops or ys[0].term[0] == "yieldfrom":
+            return None
+        y = ys[0]
+        after = [e for e in cs.events if e.idx > y.idx and e.kind != "return"]
+        if any(e.kind in ("store", "call", "raise", "yield") and set(y.loops) & set(e.loops) for e in after):
+            return None  # work after the yield inside the loop would have to run after the body
+        self._register_inlined(cs, inst, idmap)
+        for e in cs.events:
+            if e.idx < y.idx and e.kind != "return":
+                self._reemit(e, live, inst, idmap, qual)
+        self.inlined.append(qual)
+        yl = tuple(idmap[l] for l in y.loops)
+        assigned = self._assigned_names(st.body)
+        keep = self._aug_only_lists(st.body, assigned)
+        assigned = [n_ for n_ in assigned if n_ not in keep]
+        env0 = dict(self.env)
+        for n_ in assigned:
+            if n_ in self.env:
+                self.env[n_] = ("phi", n_, yl[0])
+        for l in yl:
+            self.loop_stack.append(l)
+        self.assign(st.target, inst(y.term), live, st)
+        self.block(st.body, AND(live, inst(y.live)))
+        for _ in yl:
+            self.loop_stack.pop()
+        body_env = self.env
+        self.env = env0
+        for n_ in assigned:
+            self.env[n_] = ("loopout", n_, yl[0])
+        for n_ in _target_names(st.target):
+            self.env[n_] = ("loopout", n_, yl[0])
+        self.loops[yl[0]].body_env = body_env  # type: ignore[attr-defined]
+        for e in after:
+            self._reemit(e, live, inst, idmap, qual)
+        return live
 
     def _comp(self, n, live, kind, elt_fn):
         saved_env = dict(self.env)
